@@ -746,10 +746,10 @@ pub fn gen(tier: &str, seed: u64, out: &str, focus: Option<&str>) {
     let thorough = tier == "thorough";
     let mut rng = Rng::new(seed ^ 0xC08C08);
     // per round (checks/c08.py runs one round in the quick tier, up to ten in the thorough tier)
-    let mut n_wds = if thorough { 60000 } else { 6000 };
-    let mut n_wmag = if thorough { 24000 } else { 2400 };
-    let mut n_wred = if thorough { 6000 } else { 400 };
-    let mut n_wnf = if thorough { 4000 } else { 300 };
+    let mut n_wds = if thorough { 18000 } else { 6000 };
+    let mut n_wmag = if thorough { 7200 } else { 2400 };
+    let mut n_wred = if thorough { 1500 } else { 400 };
+    let mut n_wnf = if thorough { 1200 } else { 300 };
     if let Some(f) = focus {
         if let Some((kinds, factor)) = f.split_once(':') {
             let k: usize = factor.parse().unwrap_or(3);
